@@ -114,13 +114,13 @@ func digest(s string) string {
 // ---- worker: computes digests in a fresh process ---------------------------
 
 type baseReq struct {
-	Paths []string
-	Ops   []string
+	Paths  []string
+	Ops    []string
 	Rounds int // repeat each op this many times in-process; all must agree
 }
 
 type baseResp struct {
-	Digests map[string]string // path|op -> digest
+	Digests  map[string]string // path|op -> digest
 	Mismatch []string
 }
 
@@ -644,6 +644,10 @@ func dynamic(rq dynReq) *dynResp {
 		leave()
 		compare("interleaved-readers", id+" (opened, then "+strings.Join(between, " ")+", then read)", b, "text", got, true)
 		c.Count("interleaved_reader_probes", 1)
+	}
+	// one format Reader value reused for a sequence of calls
+	if len(docs) > 0 {
+		readerReuse(c, docs, filepath.Dir(docs[0].Path))
 	}
 	// direct parser probe: operands left pending by one parse must not reach the next
 	for k := 0; k < c.N(200, 2000); k++ {
